@@ -749,7 +749,7 @@ func (st *StateDB) RevertToSnapshot(revid int) {
 	st.validatorJournal.revert(st, valSnapshot) // validator 回滚
 
 	st.validRevisions = st.validRevisions[:idx]
-	st.valValidRevisions = st.valValidRevisions[:idx]
+	st.valValidRevisions = st.valValidRevisions[:valIdx]
 }
 
 // GetRefund returns the current value of the refund counter.
@@ -854,6 +854,7 @@ func (st *StateDB) clearJournalAndRefund() {
 	st.journal = newJournal()
 	st.validatorJournal = newJournal()
 	st.validRevisions = st.validRevisions[:0]
+	st.valValidRevisions = st.valValidRevisions[:0]
 	st.refund = 0
 }
 
